@@ -179,6 +179,8 @@ def canon(v, depth=0):
         return ['FD'] + sorted(([canon(k, depth + 1), canon(x, depth + 1)] for k, x in v.items()), key=repr)
     if isinstance(v, collections.abc.Iterator):
         return ['ITER', type(v).__name__]
+    if type(v).__repr__ is object.__repr__:
+        return ['OBJ', type(v).__name__]          # default repr carries an address: compare by type only
     return ['OBJ', type(v).__name__, repr(v)[:80]]
 
 
